@@ -20,7 +20,7 @@ DECIDES = ('for the dict formats (JSON/YAML/cfg share them): every key the impor
            'weighted -> (x,y,z,w) in the writer and (x,y,z,w) -> weighted in the reader through an inverse converter pair (WV1); text/CSV: '
            'row = u, column = v with canonical stride on export and (points, size_u, size_v) from (line count, column count) on import, '
            'separators decided by a same-direction comparison (LY1, TX1, AX5); the 2-D control point file helpers apply the helper they are named after to the array they read (FH1) and pass sizes that match the '
-           'array they save (LY3f).')
+           'array they save (LY3f). exporters walk containers through the iteration protocol, which rewinds on every __iter__ and yields each element once (IT1).')
 NOT_DECIDED = 'equality up to printed precision, float formatting/parsing, third-party serialisers (json/yaml/libconf) and file I/O; freeform/evaluated data.'
 TECHNIQUE = 'writer/reader key-set and record-table agreement, abstract interpretation of layouts through the file, weight-form typestate'
 
@@ -41,6 +41,8 @@ def check(m, run):
     file_helpers(m, run)
     wrappers(m, run)
     guard_keys(m, run)
+    from . import c10
+    c10.iteration(m, run)
     run.floor('AG1.keys', 25, 'mandatory keys of the five dict pairs')
     run.floor('AG2.record-table', 14, 'header fields of smesh (7) and vmesh (10)')
     run.floor('WV1.weight-form', 4, 'two writers, two readers')
